@@ -24,7 +24,9 @@ type tlsSpec struct {
 	Next  []string `json:"next,omitempty"`
 }
 
-// op kinds: settls skip root cert sname force h3 h2c clone closeidle req
+// op kinds: settls skip root cert sname force h3 h2c clone closeidle req fork
+// ("fork" = c2 := c.Clone(); F applied to c2; one GET with c2 (+ its Alt-Svc goroutine); c2 dropped, the
+//  sequence goes on with c: Coq op OFork)
 // ("req" = one GET followed by waiting for the Alt-Svc background goroutine it may have started:
 //  Coq ops OReq; OBg)
 type op struct {
@@ -33,18 +35,21 @@ type op struct {
 	N   int      `json:"n,omitempty"`
 	S   string   `json:"s,omitempty"`
 	TLS *tlsSpec `json:"tls,omitempty"`
+	F   *op      `json:"f,omitempty"` // fork: what is done to the throw-away clone before its request (nil = nothing)
 }
 
 type cell struct {
 	Shape string `json:"shape"` // generator label (part of failure signatures)
+	Life  string `json:"life,omitempty"` // lifecycle of the structured matrix (quick-tier stratification)
 	Spec  srvSpec `json:"server"`
 	Ops   []op   `json:"ops"`
 }
 
 type obsRec struct {
-	Kind    string  `json:"kind"` // cfg | req | bg
+	Kind    string  `json:"kind"` // cfg | req | bg | fork
 	Outcome string  `json:"outcome,omitempty"`
 	Hellos  []hello `json:"hellos,omitempty"`
+	BgHellos []hello `json:"bg_hellos,omitempty"` // fork only
 	Alt     string  `json:"alt,omitempty"`
 	Detail  string  `json:"detail,omitempty"`
 }
@@ -155,10 +160,11 @@ func runCell(p *pki, o *origin, cl cell, timeout time.Duration) (res cellResult)
 	c := req.C().SetTimeout(timeout)
 	u, _ := url.Parse(o.url())
 	hadV3 := false
-	viol := func(sig, what string) {
-		res.Viol = append(res.Viol, violation{Sig: sig + "/" + cl.Shape + "/" + o.spec.Name, What: what, At: len(res.Obs)})
+	violT := func(tag, sig, what string) {
+		res.Viol = append(res.Viol, violation{Sig: sig + "/" + cl.Shape + "/" + o.spec.Name + tag, What: what, At: len(res.Obs)})
 	}
-	for _, x := range cl.Ops {
+	// configuration operations (everything but clone / req / fork); false = not a configuration op
+	applyCfg := func(c *req.Client, x op) bool {
 		switch x.K {
 		case "settls":
 			c.SetTLSClientConfig(p.tlsConfig(x.TLS))
@@ -193,121 +199,146 @@ func runCell(p *pki, o *origin, cl cell, timeout time.Duration) (res cellResult)
 			} else {
 				c.DisableH2C()
 			}
+		case "closeidle":
+			c.GetTransport().CloseIdleConnections()
+		default:
+			return false
+		}
+		return true
+	}
+	// one GET with client c (+ waiting for the Alt-Svc goroutine it may have started) and the oracle
+	doReq := func(c *req.Client, hadV3 *bool, tag string) (rec, bg obsRec) {
+		viol := func(sig, what string) { violT(tag, sig, what) }
+		refOK, wantSNI := true, ""
+		if o.spec.HTTPS {
+			refOK, wantSNI = refAcceptable(c, o)
+		}
+		altBefore := c.GetTransport().VerifAltSvcState(u)
+		force := c.GetTransport().VerifForceHTTPVersion()
+		m := o.mark()
+		resp, err := c.R().Get(o.url())
+		rec = obsRec{Kind: "req"}
+		var originProto, sni, cn string
+		switch {
+		case err != nil:
+			rec.Outcome = classify(err)
+			rec.Detail = err.Error()
+			if unstableErr(err) {
+				res.Unstable = true
+			}
+		case resp.StatusCode == 400 && resp.Header.Get("X-Proto") == "":
+			rec.Outcome = "Cleartext"
+			rec.Detail = resp.Proto + " 400 from the TLS listener"
+		default:
+			originProto, sni, cn = resp.Header.Get("X-Proto"), resp.Header.Get("X-Sni"), resp.Header.Get("X-Cn")
+			switch resp.Proto {
+			case "HTTP/1.1":
+				rec.Outcome = "V1"
+			case "HTTP/2.0":
+				rec.Outcome = "V2"
+			case "HTTP/3.0":
+				rec.Outcome = "V3"
+				*hadV3 = true
+			default:
+				rec.Outcome = "EProto"
+				rec.Detail = "unexpected Response.Proto " + resp.Proto
+			}
+		}
+		// background Alt-Svc goroutine (only after a successful non-h3 response)
+		bg = obsRec{Kind: "bg"}
+		bgStarted := false
+		if rec.Outcome == "V1" || rec.Outcome == "V2" {
+			st := c.GetTransport().VerifAltSvcState(u)
+			if altBefore == "none" && (st == "pending" || st == "ready") {
+				bgStarted = true
+				waitFor(3*time.Second, func() bool { return c.GetTransport().VerifAltSvcState(u) == "ready" })
+				if o.spec.H3 && !*hadV3 {
+					waitFor(3*time.Second, func() bool { return o.quicSince(m) > 0 })
+				}
+			}
+		}
+		for _, h := range o.since(m) {
+			if bgStarted && h.Quic {
+				bg.Hellos = append(bg.Hellos, h)
+			} else {
+				rec.Hellos = append(rec.Hellos, h)
+			}
+		}
+		bg.Alt = c.GetTransport().VerifAltSvcState(u)
+		res.Dials += len(rec.Hellos) + len(bg.Hellos)
+
+		// ---- oracle, from the property text ----
+		ok := rec.Outcome == "V1" || rec.Outcome == "V2" || rec.Outcome == "V3"
+		used := map[string]string{"V1": "1.1", "V2": "2", "V3": "3"}[rec.Outcome]
+		if ok && originProto != resp.Proto {
+			viol("proto-mismatch", fmt.Sprintf("Response.Proto %s but the origin served %s", resp.Proto, originProto))
+		}
+		if force != "" && ok && used != force {
+			viol("forced-"+force+"-used-"+used, fmt.Sprintf("version %s forced but the request was served over HTTP/%s (silent fallback)", force, used))
+		}
+		if force == "" && ok && o.spec.HTTPS {
+			if rec.Outcome == "V2" && !contains(o.spec.ALPN, "h2") {
+				viol("unoffered-h2", "HTTP/2 used although the server does not offer h2")
+			}
+			if rec.Outcome == "V3" && !o.spec.H3 {
+				viol("unoffered-h3", "HTTP/3 used although the server has no QUIC listener")
+			}
+		}
+		if ok && !o.spec.HTTPS {
+			if rec.Outcome == "V3" || (rec.Outcome == "V2" && !c.GetTransport().VerifH2AllowHTTP()) {
+				viol("plain-http-used-"+used, "plain HTTP request served over HTTP/"+used+" without h2c being enabled")
+			}
+		}
+		if rec.Outcome == "Cleartext" {
+			how := "no-custom-dialer"
+			if c.DialTLSContext != nil {
+				how = "EnableH2C-dialer" // the harness never calls SetDialTLS: only EnableH2C installs one
+			}
+			viol("https-in-cleartext/"+how, "https request written in clear to the TLS port: no certificate was checked")
+		}
+		if o.spec.HTTPS && len(rec.Hellos) > 0 {
+			stack := "tcp"
+			if rec.Hellos[len(rec.Hellos)-1].Quic {
+				stack = "quic"
+			}
+			if !refOK && ok {
+				viol("accepted-unacceptable/"+stack, "server certificate / client authentication unacceptable under the client's TLS settings (crypto/tls with the same settings refuses) but the request succeeded over "+stack)
+			}
+			if refOK && rec.Outcome == "ECert" {
+				viol("rejected-acceptable/"+stack, "crypto/tls with the client's settings accepts this origin but the request failed with a certificate error over "+stack+": "+rec.Detail)
+			}
+			if ok && sni != wantSNI {
+				viol("sni/"+stack, fmt.Sprintf("origin saw server name %q, the client's settings say %q", sni, wantSNI))
+			}
+			if ok && o.spec.NeedCert && cn == "" {
+				viol("clientcert/"+stack, "origin requires a client certificate but saw none on a successful request")
+			}
+		}
+		return rec, bg
+	}
+	for _, x := range cl.Ops {
+		switch x.K {
 		case "clone":
 			c = c.Clone()
 			hadV3 = false
-		case "closeidle":
-			c.GetTransport().CloseIdleConnections()
 		case "req":
-			refOK, wantSNI := true, ""
-			if o.spec.HTTPS {
-				refOK, wantSNI = refAcceptable(c, o)
-			}
-			altBefore := c.GetTransport().VerifAltSvcState(u)
-			force := c.GetTransport().VerifForceHTTPVersion()
-			m := o.mark()
-			resp, err := c.R().Get(o.url())
-			rec := obsRec{Kind: "req"}
-			var originProto, sni, cn string
-			switch {
-			case err != nil:
-				rec.Outcome = classify(err)
-				rec.Detail = err.Error()
-				if unstableErr(err) {
-					res.Unstable = true
-				}
-			case resp.StatusCode == 400 && resp.Header.Get("X-Proto") == "":
-				rec.Outcome = "Cleartext"
-				rec.Detail = resp.Proto + " 400 from the TLS listener"
-			default:
-				originProto, sni, cn = resp.Header.Get("X-Proto"), resp.Header.Get("X-Sni"), resp.Header.Get("X-Cn")
-				switch resp.Proto {
-				case "HTTP/1.1":
-					rec.Outcome = "V1"
-				case "HTTP/2.0":
-					rec.Outcome = "V2"
-				case "HTTP/3.0":
-					rec.Outcome = "V3"
-					hadV3 = true
-				default:
-					rec.Outcome = "EProto"
-					rec.Detail = "unexpected Response.Proto " + resp.Proto
-				}
-			}
-			// background Alt-Svc goroutine (only after a successful non-h3 response)
-			bg := obsRec{Kind: "bg"}
-			bgStarted := false
-			if rec.Outcome == "V1" || rec.Outcome == "V2" {
-				st := c.GetTransport().VerifAltSvcState(u)
-				if altBefore == "none" && (st == "pending" || st == "ready") {
-					bgStarted = true
-					waitFor(3*time.Second, func() bool { return c.GetTransport().VerifAltSvcState(u) == "ready" })
-					if o.spec.H3 && !hadV3 {
-						waitFor(3*time.Second, func() bool { return o.quicSince(m) > 0 })
-					}
-				}
-			}
-			for _, h := range o.since(m) {
-				if bgStarted && h.Quic {
-					bg.Hellos = append(bg.Hellos, h)
-				} else {
-					rec.Hellos = append(rec.Hellos, h)
-				}
-			}
-			bg.Alt = c.GetTransport().VerifAltSvcState(u)
-			res.Dials += len(rec.Hellos) + len(bg.Hellos)
-
-			// ---- oracle, from the property text ----
-			ok := rec.Outcome == "V1" || rec.Outcome == "V2" || rec.Outcome == "V3"
-			used := map[string]string{"V1": "1.1", "V2": "2", "V3": "3"}[rec.Outcome]
-			if ok && originProto != resp.Proto {
-				viol("proto-mismatch", fmt.Sprintf("Response.Proto %s but the origin served %s", resp.Proto, originProto))
-			}
-			if force != "" && ok && used != force {
-				viol("forced-"+force+"-used-"+used, fmt.Sprintf("version %s forced but the request was served over HTTP/%s (silent fallback)", force, used))
-			}
-			if force == "" && ok && o.spec.HTTPS {
-				if rec.Outcome == "V2" && !contains(o.spec.ALPN, "h2") {
-					viol("unoffered-h2", "HTTP/2 used although the server does not offer h2")
-				}
-				if rec.Outcome == "V3" && !o.spec.H3 {
-					viol("unoffered-h3", "HTTP/3 used although the server has no QUIC listener")
-				}
-			}
-			if ok && !o.spec.HTTPS {
-				if rec.Outcome == "V3" || (rec.Outcome == "V2" && !c.GetTransport().VerifH2AllowHTTP()) {
-					viol("plain-http-used-"+used, "plain HTTP request served over HTTP/"+used+" without h2c being enabled")
-				}
-			}
-			if rec.Outcome == "Cleartext" {
-				how := "no-custom-dialer"
-				if c.DialTLSContext != nil {
-					how = "EnableH2C-dialer" // the harness never calls SetDialTLS: only EnableH2C installs one
-				}
-				viol("https-in-cleartext/"+how, "https request written in clear to the TLS port: no certificate was checked")
-			}
-			if o.spec.HTTPS && len(rec.Hellos) > 0 {
-				stack := "tcp"
-				if rec.Hellos[len(rec.Hellos)-1].Quic {
-					stack = "quic"
-				}
-				if !refOK && ok {
-					viol("accepted-unacceptable/"+stack, "server certificate / client authentication unacceptable under the client's TLS settings (crypto/tls with the same settings refuses) but the request succeeded over "+stack)
-				}
-				if refOK && rec.Outcome == "ECert" {
-					viol("rejected-acceptable/"+stack, "crypto/tls with the client's settings accepts this origin but the request failed with a certificate error over "+stack+": "+rec.Detail)
-				}
-				if ok && sni != wantSNI {
-					viol("sni/"+stack, fmt.Sprintf("origin saw server name %q, the client's settings say %q", sni, wantSNI))
-				}
-				if ok && o.spec.NeedCert && cn == "" {
-					viol("clientcert/"+stack, "origin requires a client certificate but saw none on a successful request")
-				}
-			}
+			rec, bg := doReq(c, &hadV3, "")
 			res.Obs = append(res.Obs, rec, bg)
 			continue
+		case "fork":
+			c2 := c.Clone()
+			if x.F != nil && !applyCfg(c2, *x.F) {
+				panic("fork: not a configuration op: " + x.F.K)
+			}
+			h := false
+			rec, bg := doReq(c2, &h, "@fork")
+			res.Obs = append(res.Obs, obsRec{Kind: "fork", Outcome: rec.Outcome, Hellos: rec.Hellos, BgHellos: bg.Hellos, Alt: bg.Alt, Detail: rec.Detail})
+			c2.GetTransport().CloseIdleConnections()
+			continue
 		default:
-			panic("unknown op " + x.K)
+			if !applyCfg(c, x) {
+				panic("unknown op " + x.K)
+			}
 		}
 		res.Obs = append(res.Obs, obsRec{Kind: "cfg"})
 	}
@@ -367,9 +398,32 @@ func coqOps(ops []op) string {
 			out = append(out, "OCloseIdle")
 		case "req":
 			out = append(out, "OReq", "OBg")
+		case "fork":
+			out = append(out, "OFork "+coqFork(x.F))
 		}
 	}
 	return hk.CoqList(out)
+}
+
+func coqFork(f *op) string {
+	if f == nil {
+		return "FkNone"
+	}
+	switch f.K {
+	case "settls":
+		return "(FkSetTLS " + coqTLS(f.TLS) + ")"
+	case "skip":
+		return "(FkSkip " + hk.CoqBool(f.B) + ")"
+	case "root":
+		return "(FkAddRoot " + hk.CoqN(uint64(f.N)) + ")"
+	case "sname":
+		return "(FkSName " + hk.CoqStr(f.S) + ")"
+	case "force":
+		return "(FkForce " + []string{"FNone", "FH1", "FH2", "FH3"}[f.N] + ")"
+	case "h2c":
+		return "(FkH2C " + hk.CoqBool(f.B) + ")"
+	}
+	panic("fork action not expressible in the model: " + f.K)
 }
 
 func coqHellos(hs []hello) string {
@@ -379,6 +433,8 @@ func coqHellos(hs []hello) string {
 	}
 	return hk.CoqList(out)
 }
+
+var altCoq = map[string]string{"off": "AOff", "none": "AObsNone", "pending": "AObsPending", "ready": "AObsReady", "jar": "AObsJar"}
 
 func coqObs(os []obsRec) string {
 	var out []string
@@ -396,6 +452,16 @@ func coqObs(os []obsRec) string {
 				oc = "(Fail " + oc + ")"
 			}
 			out = append(out, fmt.Sprintf("ObsReq %s %s", oc, coqHellos(x.Hellos)))
+		case "fork":
+			oc := x.Outcome
+			switch oc {
+			case "V1", "V2", "V3":
+				oc = "(Use " + oc + ")"
+			case "Cleartext":
+			default:
+				oc = "(Fail " + oc + ")"
+			}
+			out = append(out, fmt.Sprintf("ObsFork %s %s %s %s", oc, coqHellos(x.Hellos), coqHellos(x.BgHellos), altCoq[x.Alt]))
 		case "bg":
 			a := map[string]string{"off": "AOff", "none": "AObsNone", "pending": "AObsPending", "ready": "AObsReady", "jar": "AObsJar"}[x.Alt]
 			out = append(out, fmt.Sprintf("ObsBg %s %s", coqHellos(x.Hellos), a))
